@@ -2,7 +2,7 @@ SETUP = "/venv/bin/python tools/setup.py"
 HOOKS = {
     "guard": "SOPHT_TEAM_SOPHT_VERIF",
     "enable": "no source hooks: checks import /repo's working tree (editable install) inside a process in which harness/shim.py interposes on pystencils.create_kernel / CreateKernelConfig; the guard variable is set by the harness but no repository code reads it",
-    "baseline_off_cmd": "cd /repo && /venv/bin/python -m pytest -ra -q -p no:cacheprovider --timeout=900 --continue-on-collection-errors",
+    "baseline_off_cmd": "cd /repo && /venv/bin/python -m pytest -ra -q -p no:cacheprovider --timeout=900 --continue-on-collection-errors --junitxml=<file>",
     "source_commits": [],
     "add_only": True,
 }
